@@ -55,9 +55,10 @@ TEXT = {
          'Termination of the Header <-> CoseSignature <-> ProtectedHeader recursion is proved with the measure (16 - depth, value) introduced by the nesting-limit fix, so re-parse depth is at most 16 and Value-level depth is bounded by ciborium\'s 256. '
          'NOT decided by contracts: stack bytes, wall time, heap (no cost model) and compiler-generated Clone/PartialEq/Drop: a bounded measurement on the real crate (2 MiB stack, nesting 15/16/3000/100000) runs with every check and is reported as bounded.', '4 C01'),
  'C07': ('For every type the decoder is verified against an iff acceptance predicate plus a result relation and the encoder against a functional data-model spec; lemmas prove that every decoded value (any nesting) encodes successfully; for CoseKey the full lemma '
-         'decode(encode(k)) = k is proved. The second and third step of the fixed point (re-decoding the re-encoding gives an equal value / the same bytes) for Header, ClaimsSet and the carriers is NOT proved (map round-trip lemma not written); that clause is reported as not decided, nothing is assumed in its place.', '4 C07'),
+         'decode(encode(k)) = k is proved; for header maps and for COSE_Sign1 WITHOUT counter signatures the whole fixed point is proved (re-encoding is accepted, decodes to an equal value including the retained protected bytes, and encodes to the same data-model value again). '
+         'For headers WITH counter signatures, ClaimsSet and the other carriers the second and third step are NOT proved; that clause is reported as not decided (a bounded round-trip probe on the real crate runs in the thorough tier), nothing is assumed in its place.', '4 C07'),
  'C11': ('Every to_cbor_value is verified against a functional spec X_cv(self) written from the CDDL (non-empty field once under its IANA label / in its slot, empties omitted, extras in order, empty protected -> zero-length bstr, single counter signature inlined, None -> nil, '
-         'recipients omitted when empty) with success iff X_encodable(self); to_vec/to_tagged_vec give enc(vv(v)) and S1 (assumed) makes that the definite-length shortest-head encoding. Decode-of-encode is proved for CoseKey only; for the other types that clause is not decided.', '4 C11'),
+         'recipients omitted when empty) with success iff X_encodable(self); to_vec/to_tagged_vec give enc(vv(v)) and S1 (assumed) makes that the definite-length shortest-head encoding. Decode-of-encode is proved for CoseKey and for header maps without counter signatures (any in-memory header meeting the decoder\'s value rules); for the other types that clause is not decided.', '4 C11'),
  'C12': ('Decode: the acceptance predicates of Header (every nesting level), CoseKey and ClaimsSet contain pairwise-distinct labels and the decoders are verified to accept iff the predicate holds, so every map with a repeated label is rejected whatever the values and positions; '
          'the error KIND (DuplicateMapKey) is not part of the verified contract. Encode: Header and CoseKey are verified to succeed iff no extra label repeats another or names a populated typed field, and lemmas prove the emitted keys pairwise distinct; '
          'ClaimsSet has no check (KNOWN FINDING, pinned by an existing test). Builders: reserved-label guards verified + necessity copies.', '4 C12'),
